@@ -88,6 +88,8 @@ def render(program, engine_line=True):
       continue
     for r in p['rules']:
       out.append(render_rule(p, r, cols_of))
+  for f in program.get('functors') or []:
+    out.append('%s := %s(%s);' % (f['name'], f['of'], ', '.join('%s: %s' % kv for kv in sorted(f['args'].items()))))
   return '\n'.join(out) + '\n'
 
 
@@ -233,7 +235,41 @@ def gen_nonrecursive(r, n_idb=None, min_idb=1, plain_names=False):
 
 
 def idb_names(program):
-  return [p['name'] for p in program['preds'] if p['kind'] != 'edb']
+  return ([p['name'] for p in program['preds'] if p['kind'] != 'edb'] +
+          [f['name'] for f in program.get('functors') or []])
+
+
+def add_functor(r, program, main):
+  """`M2 := M(E: E2)`: the predicate (usually a recursive one) over another extensional input.
+  Only the Logica text carries the functor; the reference evaluates explicit copies
+  (ref.expand_functors)."""
+  by = {p['name']: p for p in program['preds']}
+  closure = dependants(program)
+  members = [n for n in idb_names(program) if n in by]
+  target = main if r.random() < 0.7 else r.choice(members)
+  edbs = sorted(n for n in closure[target] if by[n]['kind'] == 'edb' and not by[n].get('table'))
+  if not edbs:
+    return False
+  e = r.choice(edbs)
+  src = by[e]
+  rows = [list(x) for x in src['rows']]
+  how = r.choice(['shorter', 'shifted', 'longer'])
+  if how == 'shorter' and len(rows) > 1:
+    rows = rows[:max(1, len(rows) // 2)]
+  elif how == 'longer' and src['arity'] >= 2:
+    top = max(x[1] for x in rows)
+    rows = rows + [[top, top + 1] + x[2:] for x in rows[:1]] + [[top + 1, top + 2] + x[2:] for x in rows[:1]]
+  else:
+    rows = rows + [list(rows[0])]
+  name2 = e + 'Two'
+  program['preds'].append(dict(copy_pred(src), name=name2, rows=rows))
+  program.setdefault('functors', []).append({'name': target + 'Fc', 'of': target, 'args': {e: name2}})
+  return True
+
+
+def copy_pred(p):
+  import copy
+  return copy.deepcopy(p)
 
 
 def dependants(program):
